@@ -59,9 +59,14 @@ PROPS = {
     # digests over identical generated texts are compared with each other
     # ... plus, per feature build, the exhaustive sweeps of the class table, the bracket table and Level (a feature
     # may change a lookup path, e.g. a cache that exists only with std)
-    "C20": dict(streams=[("C20", 0.4), ("C01", 0.3), ("C06", 0.3), ("C14", 2), ("C15", 2), ("C19", 127 + 256)],
-                model=["M:levels", "M:classes", "M:paras", "M:rl", "M:rpc", "M:runs", "M:druns", "M:ro", "M:panic", "M:cls", "M:brk", "M:level", "M:ver"],
-                quick=3000, thorough=150000, spec_extra=["S:C01", "S:C03", "S:C05", "S:C06", "S:C14", "S:C15", "S:C19"]),
+    # ... and a share of EVERY other operation kind (base direction, reorder_visual, text access and iterators,
+    # summary queries, the metamorphic operations), so that "operations x builds" has no empty cell
+    "C20": dict(streams=[("C20", 0.4), ("C01", 0.3), ("C06", 0.3), ("C14", 2), ("C15", 2), ("C19", 127 + 256 + 1 + 900 + 60),
+                         ("C16", 0.1), ("C04", 0.1), ("C18", 0.1), ("C17", 0.06), ("C12", 0.08), ("C09", 0.06), ("C10", 0.04), ("C13", 0.04), ("C02", 0.06)],
+                model=["M:levels", "M:classes", "M:paras", "M:rl", "M:rpc", "M:runs", "M:druns", "M:ro", "M:panic", "M:cls", "M:brk", "M:level", "M:ver",
+                       "M:basedir", "M:rv", "M:charat", "M:iter", "M:deiter", "M:hasrtl", "M:dir", "M:pure"],
+                quick=3000, thorough=150000,
+                spec_extra=["S:C01", "S:C02", "S:C03", "S:C04", "S:C05", "S:C06", "S:C07", "S:C08", "S:C09", "S:C10", "S:C12", "S:C13", "S:C14", "S:C15", "S:C16", "S:C17", "S:C18", "S:C19"]),
 }
 
 def _exh(alpha, maxlen):
